@@ -287,9 +287,9 @@ Qed.
 Lemma copy_inline_iff d : is_inline (copy_from_slice d) = (length d <=? 30)%nat.
 Proof. unfold copy_from_slice. now destruct (length d <=? 30)%nat. Qed.
 
-Lemma copy_wf d : bytes_ok d = true -> wf_cab (copy_from_slice d) = true.
+Lemma copy_wf d : bytes_ok d = true -> len d <= U64_MAX -> wf_cab (copy_from_slice d) = true.
 Proof.
-  intros B. unfold copy_from_slice. destruct (length d <=? 30)%nat eqn:E.
+  intros B LU. unfold copy_from_slice. destruct (length d <=? 30)%nat eqn:E.
   - apply Nat.leb_le in E. cbn [wf_cab]. unfold len.
     rewrite app_length, repeat_length, Nat2N.id, skipn_app_exact.
     assert (Z : forall n, forallb (N.eqb 0) (repeat 0 n) = true) by (induction n; cbn; auto).
@@ -298,7 +298,8 @@ Proof.
     rewrite O. replace (length d + (30 - length d))%nat with 30%nat by lia.
     cbn. destruct (N.of_nat (length d) <=? 30) eqn:F; [reflexivity|lia].
   - cbn [wf_cab]. rewrite B. apply Nat.leb_gt in E.
-    destruct (30 <? length d)%nat eqn:F; [reflexivity|apply Nat.ltb_ge in F; lia].
+    destruct (30 <? length d)%nat eqn:F; [|apply Nat.ltb_ge in F; lia].
+    destruct (len d <=? U64_MAX) eqn:G; [reflexivity|lia].
 Qed.
 
 (* the representation is a function of the bytes: derived Eq agrees with byte equality *)
@@ -637,3 +638,461 @@ Proof. intros. rewrite ca_display_parts. cbn [bind]. now apply ca_str_roundtrip.
 Lemma custom_bin_roundtrip' id d : id <= U64_MAX ->
   ca_to_vec (from_parts id d) >>= ca_from_bytes = Ok (from_parts id d).
 Proof. intros. rewrite ca_to_vec_parts. cbn [bind]. now apply ca_bin_roundtrip. Qed.
+
+From Coq Require Import Sorting.Sorted.
+
+(* ------------------------------------------------------------------ *)
+(** * EndpointAddr through postcard: the general round trip and totality *)
+
+(** ** BTreeSet re-insertion of an ascending sequence *)
+
+Definition insert_all (l acc : list taddr) : list taddr :=
+  fold_left (fun acc a => set_insert a acc) l acc.
+
+Lemma set_insert_last a : forall acc,
+  forallb (fun p => match taddr_cmp a p with Gt => true | _ => false end) acc = true ->
+  set_insert a acc = acc ++ [a].
+Proof.
+  induction acc as [|x r IH]; cbn [forallb set_insert app]; [reflexivity|].
+  intros H. apply andb_prop in H as (H1 & H2).
+  destruct (taddr_cmp a x); try discriminate. now rewrite IH.
+Qed.
+
+Lemma insert_all_ascending : forall l prev, ascending prev l = true -> insert_all l prev = prev ++ l.
+Proof.
+  induction l as [|a r IH]; intros prev H; unfold insert_all; cbn [fold_left].
+  - now rewrite app_nil_r.
+  - cbn [ascending] in H. apply andb_prop in H as (H1 & H2).
+    rewrite set_insert_last by exact H1. fold (insert_all r (prev ++ [a])).
+    rewrite IH by exact H2. now rewrite <- app_assoc.
+Qed.
+
+(* the derived order is antisymmetric: a < b iff b > a *)
+Lemma lex_opp c1 c2 : lex (CompOpp c1) (CompOpp c2) = CompOpp (lex c1 c2).
+Proof. destruct c1; reflexivity. Qed.
+
+Lemma bytes_cmp_antisym : forall a b, bytes_cmp b a = CompOpp (bytes_cmp a b).
+Proof.
+  induction a as [|x a IH]; intros [|y b]; cbn [bytes_cmp]; try reflexivity.
+  rewrite (N.compare_antisym x y). destruct (x ?= y); cbn [CompOpp]; auto.
+Qed.
+
+Lemma cab_cmp_antisym a b : cab_cmp b a = CompOpp (cab_cmp a b).
+Proof.
+  destruct a as [s d|d], b as [s' d'|d']; cbn [cab_cmp]; try reflexivity.
+  - rewrite (N.compare_antisym s s'), (bytes_cmp_antisym d d'). apply lex_opp.
+  - apply bytes_cmp_antisym.
+Qed.
+
+Lemma sock_cmp_antisym a b : sock_cmp b a = CompOpp (sock_cmp a b).
+Proof.
+  destruct a as [i p|i p f s], b as [i' p'|i' p' f' s']; cbn [sock_cmp]; try reflexivity.
+  - rewrite (bytes_cmp_antisym i i'), (N.compare_antisym p p'). apply lex_opp.
+  - rewrite (bytes_cmp_antisym i i'), (N.compare_antisym p p'), (N.compare_antisym f f'),
+      (N.compare_antisym s s'), !lex_opp. reflexivity.
+Qed.
+
+Lemma taddr_cmp_antisym a b : taddr_cmp b a = CompOpp (taddr_cmp a b).
+Proof.
+  destruct a as [u|x|x], b as [u'|y|y]; cbn [taddr_cmp]; try reflexivity.
+  - apply bytes_cmp_antisym.
+  - apply sock_cmp_antisym.
+  - unfold custom_cmp. rewrite (N.compare_antisym (cid x) (cid y)), (cab_cmp_antisym (cdata x) (cdata y)).
+    apply lex_opp.
+Qed.
+
+(* `ascending [] l` is strict sortedness in the derived order (hence duplicate-free) *)
+Definition taddr_lt (a b : taddr) : Prop := taddr_cmp a b = Lt.
+
+Lemma taddr_lt_iff a b : taddr_lt a b <-> taddr_cmp b a = Gt.
+Proof. unfold taddr_lt. rewrite (taddr_cmp_antisym a b). destruct (taddr_cmp a b); cbn; split; congruence. Qed.
+
+Lemma ascending_spec : forall l prev, ascending prev l = true <->
+  (Forall (fun a => Forall (fun p => taddr_lt p a) prev) l /\ StronglySorted taddr_lt l).
+Proof.
+  induction l as [|a r IH]; intros prev; cbn [ascending].
+  - split; [intros _; split; constructor|reflexivity].
+  - rewrite andb_true_iff, IH, forallb_forall. split.
+    + intros (H1 & H2 & H3). split.
+      * constructor.
+        -- apply Forall_forall. intros p Hp. specialize (H1 p Hp). apply taddr_lt_iff.
+           destruct (taddr_cmp a p); congruence.
+        -- eapply Forall_impl; [|exact H2]. cbn. intros x Hx. apply Forall_app in Hx. tauto.
+      * constructor; [exact H3|].
+        eapply Forall_impl; [|exact H2]. cbn. intros x Hx. apply Forall_app in Hx as (_ & Hx).
+        now inversion Hx.
+    + intros (H1 & H2). inversion H1 as [|? ? Ha Hr]; subst. inversion H2 as [|? ? Hs Hf]; subst.
+      split; [|split].
+      * intros p Hp. rewrite Forall_forall in Ha. specialize (Ha p Hp). apply taddr_lt_iff in Ha. now rewrite Ha.
+      * rewrite Forall_forall in *. intros x Hx. apply Forall_app. split; [now apply Hr|].
+        constructor; [now apply Hf|constructor].
+      * exact Hs.
+Qed.
+
+Lemma ascending_sorted l : ascending [] l = true <-> StronglySorted taddr_lt l.
+Proof.
+  rewrite ascending_spec. split; [tauto|]. intros H. split; [|exact H].
+  apply Forall_forall. intros; constructor.
+Qed.
+
+(** ** one address *)
+
+Lemma rb_eqb_ok r u : rb_eqb r (Ok u) = true -> r = Ok u.
+Proof. destruct r; cbn; try discriminate. intros H. apply bytes_eqb_eq in H. now subst. Qed.
+
+Lemma zeros_repeat l : forallb (N.eqb 0) l = true -> l = repeat 0 (length l).
+Proof.
+  induction l as [|x l IH]; cbn [forallb length repeat]; [reflexivity|].
+  intros H. apply andb_prop in H as (H1 & H2). apply N.eqb_eq in H1. subst x. now rewrite <- IH.
+Qed.
+
+(* a well-formed representation is the one copy_from_slice builds from its bytes *)
+Lemma wf_cab_copy c : wf_cab c = true ->
+  exists d, as_bytes c = Ok d /\ copy_from_slice d = c /\ len d <= U64_MAX.
+Proof.
+  destruct c as [s d|d]; cbn [wf_cab]; intros H.
+  - apply andb_prop in H as (H & Z). apply andb_prop in H as (H & B). apply andb_prop in H as (S & L).
+    apply Nat.eqb_eq in L. exists (firstn (N.to_nat s) d).
+    assert (Ls : (N.to_nat s <= 30)%nat) by lia.
+    assert (Lf : length (firstn (N.to_nat s) d) = N.to_nat s) by (apply firstn_length_le; lia).
+    split; [|split].
+    + cbn [as_bytes]. unfold len. rewrite L. destruct (s <=? N.of_nat 30) eqn:E; [reflexivity|lia].
+    + unfold copy_from_slice. rewrite Lf.
+      destruct (N.to_nat s <=? 30)%nat eqn:E; [|apply Nat.leb_gt in E; lia].
+      unfold len. rewrite Lf, N2Nat.id. f_equal.
+      transitivity (firstn (N.to_nat s) d ++ skipn (N.to_nat s) d); [|apply firstn_skipn]. f_equal.
+      rewrite (zeros_repeat _ Z), skipn_length, L. reflexivity.
+    + unfold len, U64_MAX. rewrite Lf. lia.
+  - apply andb_prop in H as (H & LU). apply andb_prop in H as (L & B). exists d.
+    split; [reflexivity|split; [|lia]].
+    unfold copy_from_slice. destruct (length d <=? 30)%nat eqn:E; [apply Nat.leb_le in E; lia|reflexivity].
+Qed.
+
+Lemma dec_u8s_app k ip rest : length ip = k -> dec_u8s k (ip ++ rest) = Ok (ip, rest).
+Proof.
+  intros <-. unfold dec_u8s. rewrite app_length.
+  destruct (length ip + length rest <? length ip)%nat eqn:E; [apply Nat.ltb_lt in E; lia|].
+  now rewrite firstn_app_exact, skipn_app_exact.
+Qed.
+
+Lemma sock_roundtrip a rest : wf_sock a = true -> v6_plain (Ip a) = true ->
+  sock_dec (sock_enc a ++ rest) = Ok (a, rest).
+Proof.
+  destruct a as [ip p|ip p f s]; cbn [wf_sock v6_plain sock_enc]; intros W V; unfold sock_dec.
+  - apply andb_prop in W as (W & P). apply andb_prop in W as (L & B). apply Nat.eqb_eq in L.
+    rewrite <- !app_assoc. rewrite varint_u32_roundtrip by (unfold U32_MAX; lia). cbn [bind].
+    change (0 =? 0) with true. cbv iota. rewrite dec_u8s_app by exact L. cbn [bind].
+    rewrite varint_u16_roundtrip by lia. reflexivity.
+  - apply andb_prop in W as (W & _). apply andb_prop in W as (W & _).
+    apply andb_prop in W as (W & P). apply andb_prop in W as (L & B). apply Nat.eqb_eq in L.
+    apply andb_prop in V as (F & S). apply N.eqb_eq in F. apply N.eqb_eq in S. subst f s.
+    rewrite <- !app_assoc. rewrite varint_u32_roundtrip by (unfold U32_MAX; lia). cbn [bind].
+    change (1 =? 0) with false. change (1 =? 1) with true. cbv iota.
+    rewrite dec_u8s_app by exact L. cbn [bind].
+    rewrite varint_u16_roundtrip by lia. reflexivity.
+Qed.
+
+Section Addr.
+Variable is_point : bytes -> bool.
+Variable url_parse : bytes -> res bytes.
+
+Lemma taddr_roundtrip a rest : wf_taddr url_parse a = true -> v6_plain a = true ->
+  exists x, taddr_enc a = Ok x /\ (0 < length x)%nat /\ taddr_dec url_parse (x ++ rest) = Ok (a, rest).
+Proof.
+  destruct a as [u|a|c]; cbn [wf_taddr taddr_enc]; intros W V.
+  - apply andb_prop in W as (W & U). apply andb_prop in W as (B & L). apply rb_eqb_ok in U.
+    eexists. split; [reflexivity|]. split; [change (varint_u32_enc 0) with [0]; cbn [app length]; lia|].
+    unfold taddr_dec. rewrite <- !app_assoc. rewrite varint_u32_roundtrip by (unfold U32_MAX; lia).
+    cbn [bind]. change (0 =? 0) with true. cbv iota.
+    rewrite dec_bytes_roundtrip by lia. cbn [bind]. rewrite U. reflexivity.
+  - eexists. split; [reflexivity|]. split; [change (varint_u32_enc 1) with [1]; cbn [app length]; lia|].
+    unfold taddr_dec. rewrite <- !app_assoc. rewrite varint_u32_roundtrip by (unfold U32_MAX; lia).
+    cbn [bind]. change (1 =? 0) with false. change (1 =? 1) with true. cbv iota.
+    rewrite sock_roundtrip by assumption. reflexivity.
+  - unfold wf_custom in W. apply andb_prop in W as (I & W).
+    destruct (wf_cab_copy _ W) as (d & A & C & L).
+    destruct c as [id cd]. cbn [cid cdata] in *. subst cd.
+    change (mkCustom id (copy_from_slice d)) with (from_parts id d).
+    rewrite ca_postcard_parts. cbn [bind].
+    eexists. split; [reflexivity|]. split; [change (varint_u32_enc 2) with [2]; cbn [app length]; lia|].
+    unfold taddr_dec. rewrite <- !app_assoc. rewrite varint_u32_roundtrip by (unfold U32_MAX; lia).
+    cbn [bind]. change (2 =? 0) with false. change (2 =? 1) with false. change (2 =? 2) with true. cbv iota.
+    rewrite ca_postcard_roundtrip by lia. reflexivity.
+Qed.
+
+(** ** the sequence *)
+
+Lemma taddrs_roundtrip : forall l rest acc fuel,
+  forallb (wf_taddr url_parse) l = true -> forallb v6_plain l = true -> (length l <= fuel)%nat ->
+  exists b, taddrs_enc l = Ok b /\ (length l <= length b)%nat /\
+    taddrs_dec url_parse fuel (len l) (b ++ rest) acc = Ok (insert_all l acc, rest).
+Proof.
+  induction l as [|a r IH]; intros rest acc fuel W V F.
+  - exists []. split; [reflexivity|]. split; [cbn; lia|].
+    change (len (@nil taddr)) with 0. destruct fuel; reflexivity.
+  - cbn [forallb] in W, V. apply andb_prop in W as (Wa & Wr). apply andb_prop in V as (Va & Vr).
+    destruct fuel as [|f]; [cbn [length] in F; lia|]. cbn [length] in F.
+    destruct (taddr_roundtrip a) with (rest := @nil N) as (x & Ex & Lx & _); [assumption..|].
+    destruct (IH rest (set_insert a acc) f Wr Vr ltac:(lia)) as (y & Ey & Ly & Dy).
+    exists (x ++ y). cbn [taddrs_enc]. rewrite Ex. cbn [bind]. rewrite Ey. cbn [bind].
+    split; [reflexivity|]. split; [rewrite app_length; cbn [length]; lia|].
+    cbn [taddrs_dec].
+    destruct (len (a :: r) =? 0) eqn:E; [unfold len in E; cbn [length] in E; lia|].
+    replace (len (a :: r) - 1) with (len r) by (unfold len; cbn [length]; lia).
+    rewrite <- app_assoc.
+    destruct (taddr_roundtrip a (y ++ rest) Wa Va) as (x' & Ex' & _ & Dx).
+    rewrite Ex in Ex'. injection Ex' as <-. rewrite Dx. cbn [bind]. exact Dy.
+Qed.
+
+(** ** the whole value *)
+
+Lemma wf_key_valid k : wf_key is_point k = true <-> valid_key is_point k.
+Proof.
+  unfold wf_key, valid_key. rewrite !andb_true_iff, Nat.eqb_eq. tauto.
+Qed.
+
+Lemma ea_roundtrip e rest : wf_eaddr is_point url_parse e = true -> forallb v6_plain (eaddrs e) = true ->
+  exists b, ea_enc e = Ok b /\ ea_dec is_point url_parse (b ++ rest) = Ok (e, rest).
+Proof.
+  intros W V. unfold wf_eaddr in W. apply andb_prop in W as (W & LU). apply andb_prop in W as (W & A).
+  apply andb_prop in W as (K & WA). apply wf_key_valid in K.
+  destruct (taddrs_roundtrip (eaddrs e) rest [] (S (length (eaddrs e))) WA V ltac:(lia)) as (b & Eb & Lb & _).
+  destruct (taddrs_roundtrip (eaddrs e) rest [] (S (length (b ++ rest))) WA V) as (b' & Eb' & _ & Db).
+  { rewrite app_length. lia. }
+  rewrite Eb in Eb'. injection Eb' as <-.
+  unfold ea_enc. rewrite Eb. cbn [bind]. eexists. split; [reflexivity|].
+  unfold ea_dec. rewrite <- !app_assoc.
+  change (eid e ++ varint_u64_enc (len (eaddrs e)) ++ b ++ rest)
+    with (pk_postcard_enc (eid e) ++ varint_u64_enc (len (eaddrs e)) ++ b ++ rest).
+  rewrite pk_postcard_roundtrip by exact K. cbn [bind].
+  rewrite varint_u64_roundtrip by lia. cbn [bind].
+  rewrite Db. cbn [bind]. rewrite insert_all_ascending by exact A. cbn [app].
+  destruct e; reflexivity.
+Qed.
+
+End Addr.
+
+(** ** the decoder is total, and what it accepts can be re-serialised *)
+
+Lemma bind_total {A B} (x : res A) (f : A -> res B) :
+  x <> Panic -> (forall a, x = Ok a -> f a <> Panic) -> x >>= f <> Panic.
+Proof. destruct x; cbn [bind]; intros H G; [now apply G|discriminate|congruence]. Qed.
+
+Lemma varint_u32_dec_total l : varint_u32_dec l <> Panic.
+Proof. apply leb_dec_total. Qed.
+Lemma varint_u16_dec_total l : varint_u16_dec l <> Panic.
+Proof. apply leb_dec_total. Qed.
+Lemma varint_u64_dec_total l : varint_u64_dec l <> Panic.
+Proof. apply leb_dec_total. Qed.
+
+Lemma dec_u8s_total k l : dec_u8s k l <> Panic.
+Proof. unfold dec_u8s. destruct (length l <? k)%nat; discriminate. Qed.
+
+Lemma sock_dec_total l : sock_dec l <> Panic.
+Proof.
+  unfold sock_dec. apply bind_total; [apply varint_u32_dec_total|]. intros (v, r) _.
+  destruct (v =? 0); [|destruct (v =? 1); [|discriminate]].
+  - apply bind_total; [apply dec_u8s_total|]. intros (ip, r2) _.
+    apply bind_total; [apply varint_u16_dec_total|]. intros (p, r3) _. discriminate.
+  - apply bind_total; [apply dec_u8s_total|]. intros (ip, r2) _.
+    apply bind_total; [apply varint_u16_dec_total|]. intros (p, r3) _. discriminate.
+Qed.
+
+Definition encodable (a : taddr) : bool := match taddr_enc a with Ok _ => true | _ => false end.
+
+Lemma set_insert_Forall (P : taddr -> Prop) a : forall acc,
+  P a -> Forall P acc -> Forall P (set_insert a acc).
+Proof.
+  induction acc as [|x r IH]; intros Pa F; cbn [set_insert]; [constructor; auto|].
+  inversion F; subst. destruct (taddr_cmp a x); auto.
+Qed.
+
+Lemma taddrs_enc_encodable : forall l, Forall (fun a => encodable a = true) l ->
+  exists b, taddrs_enc l = Ok b.
+Proof.
+  induction l as [|a r IH]; intros F; [exists []; reflexivity|].
+  inversion F as [|? ? Ha Hr]; subst. destruct (IH Hr) as (y & Ey).
+  unfold encodable in Ha. cbn [taddrs_enc]. destruct (taddr_enc a) as [x| |]; try discriminate.
+  cbn [bind]. rewrite Ey. cbn [bind]. eauto.
+Qed.
+
+Section AddrDec.
+Variable is_point : bytes -> bool.
+Variable url_parse : bytes -> res bytes.
+
+Lemma taddr_dec_encodable l a r : taddr_dec url_parse l = Ok (a, r) -> encodable a = true.
+Proof.
+  unfold taddr_dec. destruct (varint_u32_dec l) as [(v, r0)| |]; cbn [bind]; try discriminate.
+  destruct (v =? 0); [|destruct (v =? 1); [|destruct (v =? 2); [|discriminate]]].
+  - destruct (dec_bytes r0) as [(s, r2)| |]; cbn [bind]; try discriminate.
+    destruct (url_parse s); cbn [bind]; try discriminate. intros [= <- _]. reflexivity.
+  - destruct (sock_dec r0) as [(x, r2)| |]; cbn [bind]; try discriminate. intros [= <- _]. reflexivity.
+  - unfold ca_postcard_dec. destruct (varint_u64_dec r0) as [(id, r1)| |]; cbn [bind]; try discriminate.
+    destruct (dec_bytes r1) as [(d, r2)| |]; cbn [bind]; try discriminate. intros [= <- _].
+    unfold encodable. cbn [taddr_enc]. rewrite ca_postcard_parts. reflexivity.
+Qed.
+
+Lemma taddrs_dec_encodable : forall fuel cnt l acc out r,
+  Forall (fun a => encodable a = true) acc ->
+  taddrs_dec url_parse fuel cnt l acc = Ok (out, r) -> Forall (fun a => encodable a = true) out.
+Proof.
+  induction fuel as [|f IH]; intros cnt l acc out r F; cbn [taddrs_dec];
+    (destruct (cnt =? 0); [intros [= <- _]; exact F|]); [discriminate|].
+  destruct (taddr_dec url_parse l) as [(a, r1)| |] eqn:D; cbn [bind]; try discriminate.
+  apply IH. apply set_insert_Forall; [|exact F]. eapply taddr_dec_encodable, D.
+Qed.
+
+Lemma ea_dec_ok l e r : ea_dec is_point url_parse l = Ok (e, r) ->
+  eid e = firstn 32 l /\ length (eid e) = 32%nat /\ is_point (eid e) = true /\ exists b, ea_enc e = Ok b.
+Proof.
+  unfold ea_dec. destruct (pk_postcard_dec is_point l) as [(k, r0)| |] eqn:P; cbn [bind]; try discriminate.
+  destruct (varint_u64_dec r0) as [(cnt, r2)| |]; cbn [bind]; try discriminate.
+  destruct (taddrs_dec url_parse (S (length r2)) cnt r2 []) as [(out, r3)| |] eqn:T; cbn [bind]; try discriminate.
+  intros [= <- _]. cbn [eid eaddrs].
+  assert (K : k = firstn 32 l).
+  { unfold pk_postcard_dec in P. destruct (length l <? 32)%nat; [discriminate|].
+    destruct (pk_try_from_slice is_point (firstn 32 l)) as [k'| |] eqn:Q; try discriminate.
+    injection P as <- _. now apply pk_try_from_slice_ok in Q as (Q & _). }
+  apply pk_postcard_dec_ok in P as (P1 & P2).
+  split; [exact K|]. split; [exact P2|]. split; [exact P1|].
+  apply taddrs_dec_encodable in T; [|constructor].
+  destruct (taddrs_enc_encodable _ T) as (b & Eb). unfold ea_enc. cbn [eid eaddrs]. rewrite Eb.
+  cbn [bind]. eauto.
+Qed.
+
+Hypothesis url_parse_total : forall s, url_parse s <> Panic.
+
+Lemma taddr_dec_total l : taddr_dec url_parse l <> Panic.
+Proof.
+  unfold taddr_dec. apply bind_total; [apply varint_u32_dec_total|]. intros (v, r) _.
+  destruct (v =? 0); [|destruct (v =? 1); [|destruct (v =? 2); [|discriminate]]].
+  - apply bind_total; [apply dec_bytes_total|]. intros (s, r2) _.
+    apply bind_total; [apply url_parse_total|]. intros u _. discriminate.
+  - apply bind_total; [apply sock_dec_total|]. intros (a, r2) _. discriminate.
+  - apply bind_total; [apply ca_postcard_dec_total|]. intros (c, r2) _. discriminate.
+Qed.
+
+Lemma taddrs_dec_total : forall fuel cnt l acc, taddrs_dec url_parse fuel cnt l acc <> Panic.
+Proof.
+  induction fuel as [|f IH]; intros cnt l acc; cbn [taddrs_dec];
+    (destruct (cnt =? 0); [discriminate|]); [discriminate|].
+  apply bind_total; [apply taddr_dec_total|]. intros (a, r) _. apply IH.
+Qed.
+
+Lemma ea_dec_total l : ea_dec is_point url_parse l <> Panic.
+Proof.
+  unfold ea_dec. apply bind_total; [apply pk_postcard_dec_total|]. intros (k, r) _.
+  apply bind_total; [apply varint_u64_dec_total|]. intros (cnt, r2) _.
+  apply bind_total; [apply taddrs_dec_total|]. intros (out, r3) _. discriminate.
+Qed.
+
+End AddrDec.
+
+(** ** the monitor on the model's output, all 14 operations *)
+
+Lemma sock_eqb_refl a : sock_eqb a a = true.
+Proof. destruct a; cbn [sock_eqb]; rewrite bytes_eqb_refl, ?N.eqb_refl; reflexivity. Qed.
+Lemma taddr_eqb_refl a : taddr_eqb a a = true.
+Proof. destruct a; cbn [taddr_eqb]; [apply bytes_eqb_refl|apply sock_eqb_refl|apply custom_eqb_refl]. Qed.
+Lemma eaddr_eqb_refl e : eaddr_eqb e e = true.
+Proof. unfold eaddr_eqb. rewrite bytes_eqb_refl. cbn [andb]. apply list_eqb_refl, taddr_eqb_refl. Qed.
+
+Lemma v6_plain_noflow l : forallb v6_plain l = true -> forallb v6_noflow l = true.
+Proof.
+  rewrite !forallb_forall. intros H a Ha. specialize (H a Ha).
+  destruct a as [u|[ip p|ip p f s]|c]; cbn [v6_plain v6_noflow] in *; auto.
+  now apply andb_prop in H as (H & _).
+Qed.
+
+Lemma url_table_total_spec urls : url_table_total urls = true -> forall s, url_parse_of urls s <> Panic.
+Proof.
+  unfold url_table_total, url_parse_of. intros H s.
+  induction urls as [|(k, v) t IH]; cbn [lookup]; [discriminate|].
+  cbn [forallb snd] in H. apply andb_prop in H as (H1 & H2).
+  destruct (bytes_eqb k s); [|now apply IH]. destruct v; [discriminate|discriminate|discriminate H1].
+Qed.
+
+Lemma bytes_ok_firstn n l : bytes_ok l = true -> bytes_ok (firstn n l) = true.
+Proof.
+  unfold bytes_ok. revert l; induction n as [|n IH]; intros [|x l]; cbn [firstn forallb]; auto.
+  intros H. apply andb_prop in H as (H1 & H2). now rewrite H1, IH.
+Qed.
+
+Lemma monitor_model_ea_rt e pts urls : known (OpEaRt e, pts, urls) = 0 ->
+  monitor (OpEaRt e, pts, urls) (model (OpEaRt e, pts, urls)) = true.
+Proof.
+  unfold known. cbn [fst]. destruct (forallb v6_plain (eaddrs e)) eqn:V; [intros _|discriminate].
+  unfold monitor, model.
+  destruct (wf_eaddr (is_point_of pts) (url_parse_of urls) e) eqn:W; [|reflexivity]. cbn [negb].
+  destruct (ea_roundtrip _ _ e [] W V) as (b & Eb & Db). rewrite app_nil_r in Db.
+  rewrite Eb. cbn [bind]. rewrite Db. unfold no_trailing. cbn [bind].
+  rewrite (v6_plain_noflow _ V), eaddr_eqb_refl. reflexivity.
+Qed.
+
+Lemma monitor_model_ea_pc b pts urls :
+  monitor (OpEaPostcard b, pts, urls) (model (OpEaPostcard b, pts, urls)) = true.
+Proof.
+  unfold monitor, model.
+  destruct (bytes_ok b && url_table_total urls) eqn:G; [|reflexivity]. cbn [negb].
+  apply andb_prop in G as (B & U).
+  pose proof (ea_dec_total (is_point_of pts) _ (url_table_total_spec _ U) b) as T.
+  destruct (ea_dec (is_point_of pts) (url_parse_of urls) b) as [(e', r)| |] eqn:D;
+    unfold no_trailing; cbn [bind]; [|reflexivity|congruence].
+  apply ea_dec_ok in D as (K & L & P & x & Ex). rewrite Ex.
+  unfold wf_key. rewrite L, P, K, bytes_ok_firstn by exact B. reflexivity.
+Qed.
+
+Lemma monitor_model i : known i = 0 -> monitor i (model i) = true.
+Proof.
+  destruct (is_ea i) eqn:E; [|intros _; now apply monitor_model_non_ea].
+  destruct i as ((o, pts), urls). unfold is_ea in E. cbn [fst] in E.
+  destruct o; try discriminate; intros K; [now apply monitor_model_ea_rt|apply monitor_model_ea_pc].
+Qed.
+
+(* Prop-level reading of the hypotheses of the round trip *)
+Definition wf_endpoint_addr (is_point : bytes -> bool) (url_parse : bytes -> res bytes) (e : eaddr) : Prop :=
+  valid_key is_point (eid e) /\
+  Forall (fun a => wf_taddr url_parse a = true /\ v6_plain a = true) (eaddrs e) /\
+  StronglySorted taddr_lt (eaddrs e) /\
+  len (eaddrs e) <= U64_MAX.
+
+Lemma endpoint_addr_postcard_roundtrip is_point url_parse e rest :
+  wf_endpoint_addr is_point url_parse e ->
+  exists b, ea_enc e = Ok b /\ ea_dec is_point url_parse (b ++ rest) = Ok (e, rest).
+Proof.
+  intros (K & F & S & L). apply ea_roundtrip.
+  - unfold wf_eaddr. rewrite !andb_true_iff. repeat split.
+    + now apply wf_key_valid.
+    + apply forallb_forall. rewrite Forall_forall in F. intros a Ha. now apply F.
+    + now apply ascending_sorted.
+    + lia.
+  - apply forallb_forall. rewrite Forall_forall in F. intros a Ha. now apply F.
+Qed.
+
+Lemma endpoint_addr_decode_total is_point url_parse b :
+  (forall s, url_parse s <> Panic) -> ea_dec is_point url_parse b <> Panic.
+Proof. intros H. now apply ea_dec_total. Qed.
+
+(* non-vacuity: the mixed address set of ea_good satisfies the Prop-level hypotheses *)
+Example wf_endpoint_addr_ex :
+  match ea_good with
+  | (OpEaRt e, pts, urls) => wf_endpoint_addr (is_point_of pts) (url_parse_of urls) e
+  | _ => False
+  end.
+Proof.
+  cbv beta iota delta [ea_good]. unfold wf_endpoint_addr. split; [|split; [|split]].
+  - vm_compute. repeat split.
+  - apply Forall_forall. intros a Ha. apply andb_true_iff.
+    revert a Ha. apply forallb_forall. vm_compute. reflexivity.
+  - apply ascending_sorted. vm_compute. reflexivity.
+  - vm_compute. discriminate.
+Qed.
+
+(* why the OpEaPostcard branch of the monitor is guarded: for "bytes" that are not bytes, or a url
+   table recording a panic of url::Url, the unguarded conclusion fails on the model's own output *)
+Example ea_pc_guards_needed :
+  let i1 : input := (OpEaPostcard (repeat 300 32 ++ [0]), [(repeat 300 32, true)], []) in
+  let i2 : input := (OpEaPostcard (repeat 0 32 ++ [1;0;0]), [(repeat 0 32, true)], [([], Panic)]) in
+  match model i1 with Ok (OEa e' [Ok _]) => wf_key (is_point_of (snd (fst i1))) (eid e') = false | _ => False end /\
+  model i2 = Panic.
+Proof. vm_compute. auto. Qed.
